@@ -26,7 +26,8 @@ def value_specs(p, h):
     out = []
     n = p["nvals"]
     for i in range(n):
-        text = ("val%d" % (i + 1)) if p["vtext"] == "plain" else ("al,pha%d" % (i + 1)) if p["vtext"] == "comma" else ["0", "0.0", "False"][i]
+        text = (("val%d" % (i + 1)) if p["vtext"] == "plain" else ("al,pha%d" % (i + 1)) if p["vtext"] == "comma"
+                else ("step %d\nsecond line" % (i + 1)) if p["vtext"] == "newline" else ["0", "0.0", "False"][i])
         if p["vtext"] == "blankfirst":
             # the usual 1.0 way to type a Property: a first value element without text that only carries attributes
             text = "" if i == 0 else "val%d" % (i + 1)
@@ -46,7 +47,7 @@ def value_specs(p, h):
             elif pl == "all-conflict":
                 at[ATTR10[a]] = AVAL[a][i % 3]
         if p["vextra"] and i == 0:
-            at["checksum"] = "crc32$abc"
+            at["checksum"] = "crc32$" + h               # a text of its own per Property: every drop has to be recorded, not one of them
         if p["vtext"] == "blankfirst" and i == 0 and "type" not in at:
             at["type"] = "string"
         out.append((text, at))
@@ -221,10 +222,17 @@ def log_facts(g, log):
         if h.startswith("s"):
             out[h] = {"extra": has("mapping")}
         else:
-            out[h] = {"unnamed": has("without", "name"), "extra": has("synonym"), "vextra": has("checksum"),
-                      "unit": has("unit", "already exported"), "dtype": has("type", "already exported"),
-                      "uncertainty": has("uncertainty", "already exported"), "value_origin": has("filename", "already exported"),
-                      "definition": has("definition", "already exported"), "reference": has("reference", "already exported")}
+            def conflict(a, tag):
+                # every omitted value is mentioned (with all-conflict the second and third value element carry other texts)
+                ok = has(tag, "already exported")
+                if g[h][a] == "all-conflict":
+                    for i in range(1, g[h]["nvals"]):
+                        ok = ok and has(tag, "already exported", "'%s'" % AVAL[a][i % 3])
+                return ok
+            out[h] = {"unnamed": has("without", "name"), "extra": has("synonym"), "vextra": has("checksum", "crc32$" + h),
+                      "unit": conflict("unit", "unit"), "dtype": conflict("dtype", "type"),
+                      "uncertainty": conflict("uncertainty", "uncertainty"), "value_origin": conflict("filename", "filename"),
+                      "definition": conflict("definition", "definition"), "reference": conflict("reference", "reference")}
     return out
 
 
